@@ -39,8 +39,15 @@ class DeadlockError(RuntimeError):
     pass
 
 
+# The virtual clock does not start at zero: loop.time() is "time since boot" in real life, and a deadline computed as
+# call_later(loop.time() + x) instead of call_at(...) is invisible on a clock that starts at 0.  A multiple of 1/1024 s far from
+# zero (three days) keeps every model time (multiples of 1/1024 s) exactly representable.
+CLOCK_BASE = 259200.0
+
+
 class VLoop(asyncio.SelectorEventLoop):
-    """SelectorEventLoop whose clock is virtual: select(timeout) advances the clock by timeout."""
+    """SelectorEventLoop whose clock is virtual: select(timeout) advances the clock by timeout.
+    loop._vt is the time since the start of the run; loop.time() = CLOCK_BASE + loop._vt."""
 
     def __init__(self):
         self._vt = 0.0
@@ -50,7 +57,7 @@ class VLoop(asyncio.SelectorEventLoop):
         self.before_callback = None
 
     def time(self):
-        return self._vt
+        return CLOCK_BASE + self._vt
 
     # pending (non cancelled) timers: list of (when, callback name)
     def armed_timers(self):
@@ -59,11 +66,11 @@ class VLoop(asyncio.SelectorEventLoop):
             if not h._cancelled:
                 cb = h._callback
                 name = getattr(cb, "__qualname__", None) or getattr(getattr(cb, "func", None), "__qualname__", None) or repr(cb)
-                out.append((h._when, name))
+                out.append((h._when - CLOCK_BASE, name))
         return sorted(out)
 
     def next_timer(self):
-        ts = [h._when for h in self._scheduled if not h._cancelled]
+        ts = [h._when - CLOCK_BASE for h in self._scheduled if not h._cancelled]
         return min(ts) if ts else None
 
 
@@ -95,7 +102,8 @@ async def drain(loop, limit=10000):
 
 async def advance(loop, to=None, by=None):
     """Advance virtual time (firing due timers in order, draining after each)."""
-    target = loop._vt + by if by is not None else to
+    # `to` is a loop time (as returned by loop.time()); `by` is a duration
+    target = loop._vt + by if by is not None else to - CLOCK_BASE
     while True:
         nt = loop.next_timer()
         if nt is None or nt > target:
